@@ -37,6 +37,8 @@ Step ==
                          \cup (IF e.ret > cap - (acc - nxt) THEN {"C18_overwrite"} ELSE {}), scen)
             /\ (e.ret = Min(e.n, cap - 1 - (acc - nxt)) \/ Drift(l, "write_accept", scen))
             /\ acc' = acc + e.ret /\ UNCHANGED <<scen, cap, nxt, off>> /\ mw' = mw + e.ret /\ mr' = mr
+       [] e.ev = "XWrite" ->      \* the external producer (the driver plays it): may fill the ring completely
+            /\ acc' = acc + e.ret /\ UNCHANGED <<scen, cap, nxt, off>> /\ mw' = mw + e.ret /\ mr' = mr
        [] e.ev \in {"Read", "ReadAll", "Drain"} ->
             /\ Report(l, ReadPreds(e, e.data)
                          \cup (IF e.ev = "Read" /\ Len(e.data) > e.n THEN {"C18_toomany"} ELSE {})
